@@ -71,7 +71,13 @@ defined exactly once, at the start of a line, optionally `pub`, without attribut
 Typing is checked (f64 / i32 / usize / bool / the three list-of-pairs types); no shadowing; loops and statement-ifs
 must change at least one outer place; the iterated slice and `&` arguments of a call must not be among the places the
 loop / the call changes; integer division only by a positive literal; no `break`/`continue` inside `while`; statements
-after `continue`/`break` are refused; mutual recursion is refused."""
+after `continue`/`break` are refused; mutual recursion is refused.
+
+  python3 tools/gen_conv.py                    regenerate coq/gen/ConvGen.v
+  python3 tools/gen_conv.py --ties             additionally compile coq/proofs/ConvTie.v block by block (convolve_with,
+                                               convolve_pow) and print `tie <f>: OK | FAILED (..) | SKIPPED (..)`
+  python3 tools/gen_conv.py --ties --field     the same in FIELD MODE (tools/tie_modes.py, coq/model/TieTac.v)
+  --only=a,b                                   (with --ties) only the named functions"""
 import os, re, sys
 sys.path.insert(0, os.path.dirname(os.path.abspath(__file__)))
 import gen_poisson
@@ -1057,7 +1063,27 @@ def main():
     if old != text:
         open(OUT, "w").write(text)
     print("gen_conv: %d functions (%s)%s" % (len(order), ", ".join(order), "" if old == text else " [rewritten]"))
+    import tie_modes
+    ties, field, only = tie_modes.flags(sys.argv[1:])
+    if ties:
+        return check_ties(order, field, only)
     return 0
+
+
+WANTED = ["convolve_with", "convolve_pow"]
+
+
+def check_ties(order, field=False, only=None):
+    """compile coq/proofs/ConvTie.v block by block (`(* BEGIN TIE f (needs: ..) *) .. (* END TIE f *)`), in strict mode
+    or (field=True) in field mode, see tools/tie_modes.py; prints `tie <f>: OK | FAILED (..) | SKIPPED (..)`"""
+    import tie_modes
+    coq = os.path.dirname(os.path.dirname(OUT))
+    if not tie_modes.compile_deps(coq, ["model/TieTac.v", "model/ImpW.v", "gen/ConvGen.v"]):
+        return 1
+    skipped = {n: "not among the functions the translator emitted" for n in WANTED if n not in order}
+    bad = tie_modes.check_blocks(coq, os.path.join(coq, "proofs", "ConvTie.v"), WANTED, skipped, field=field, only=only,
+                                 stem="ConvTie")
+    return 1 if bad else 0
 
 
 if __name__ == "__main__":
